@@ -16,6 +16,7 @@ CORR_BITS = (5,)
 def linear(case):
     c = dict(case)
     c["scale"] = F(1)
+    c["omit"] = [k for k in c.get("omit", ()) if k != "scale"]   # pw_align's default scale is 0.5: pass it
     return c
 
 
